@@ -60,7 +60,7 @@ def _setup():
     return _state
 
 
-TLEN = 40  # fixed table length (one jit cache entry)
+TLEN = 80  # fixed table length (one jit cache entry)
 
 
 def _as_kind(v, kind):
@@ -175,6 +175,12 @@ def histories(ctx):
     for _ in range(20 if ctx.quick else 300):  # long
         l = int(r.integers(7, 13))
         hs.append(("long", [int(v) for v in r.permutation(np.arange(1, l + 1))]))
+    # very long histories with the minimum early and a patience in the thirties (seeded change C16e looked at the last 32 losses only)
+    for _ in range(2 if ctx.quick else 12):
+        l = int(r.integers(TLEN - 6, TLEN - 2))
+        best_at = int(r.integers(0, 4))
+        rest = [int(v) for v in r.permutation(np.arange(2, l + 1))]
+        hs.append(("verylong", rest[:best_at] + [1] + rest[best_at:]))
     return hs
 
 
@@ -196,10 +202,12 @@ def run(ctx):
                 grid = [g for g in grid if r.random() < 0.35]
             elif not ctx.quick and L >= 6:  # 720 histories x 98 settings: sample a quarter (the full product takes ~50 min)
                 grid = [g for g in grid if r.random() < 0.25]
+        elif kind == "verylong":
+            grid = [(int(r.integers(28, 40)), L, bool(r.integers(0, 2))) for _ in range(2)]
         else:
             grid = [(int(r.integers(0, 5)), int(r.integers(0, L + 1)), bool(r.integers(0, 2))) for _ in range(3)]
         for P, m, rb in grid:
-            nb = int(r.integers(1, 3))
+            nb = 1 if kind == "verylong" else int(r.integers(1, 3))
             cases.append(("data", kind, vals, P, m, rb, nb))
             reqs.append(f"c16.data {P} {m} {int(rb)} {','.join(map(str, vals)) or '-'}")
         steps_grid = range(0, L + 1) if kind == "perm" else [L, int(r.integers(0, L + 1))]
